@@ -1043,7 +1043,8 @@ class CPreProcessor:
             lhs = expressions.NumericLiteral(lhs, typ, token.loc)
         elif token.typ == "CHAR":
             lhs, _ = charval(replace_escape_codes(token.val))
-            # TODO: check type specifier?
+            if lhs > 127:  # plain char is signed
+                lhs -= 256
             lhs = expressions.NumericLiteral(lhs, self._int_type, token.loc)
         else:
             raise NotImplementedError(token.val)
